@@ -19,6 +19,11 @@ pub mod delay_queue {
     }
     impl DelayQueue {
         pub uninterp spec fn view(&self) -> Map<Key, Entry>;
+        /// `DelayQueue::new()` (= its `Default`): nothing armed
+        #[verifier::external_body]
+        pub fn new() -> (r: DelayQueue)
+            ensures r@ == Map::<Key, Entry>::empty()
+        { unimplemented!() }
         /// the task's waker is registered with the timer (last poll_expired answered Pending)
         pub uninterp spec fn reg(&self) -> bool;
         #[verifier::external_body]
